@@ -113,6 +113,23 @@ def r_configs(tier: str) -> List[Tuple[Any, Any, str]]:
                     res.append((RCfg.of(a, pa, "RuleDB"), RCfg.of(b, pb, "RuleDB"), v))
                     if pa.startswith("rx"):
                         res.append((RCfg.of(b, pb, "RuleDB"), RCfg.of(a, pa, "RuleDB"), v))
+    # languages with 3 DFA states: ordered pairs with equal counting sequences up to size 6
+    # (75 064 pairs).  The smallest family found in which the second search has to give a
+    # candidate up again after parts of it succeeded (backtracking with cleaning sets).
+    from collections import defaultdict
+
+    groups = defaultdict(list)
+    for d in dr.languages(3):
+        groups[tuple(dr.counts(d, n) for n in range(7))].append(d)
+    pairs3 = [(a, b) for v in groups.values() for a in v for b in v]
+    if tier == "quick":
+        for a, b in pairs3[::12]:
+            res.append((RCfg.of(a, "rxebR", "RuleDB"), RCfg.of(b, "r", "RuleDB"), "plain+exhausted"))
+    else:
+        for a, b in pairs3:
+            for pa, pb in (("r", "r"), ("rxebR", "r")):
+                res.append((RCfg.of(a, pa, "RuleDB"), RCfg.of(b, pb, "RuleDB"), "plain+exhausted"))
+            res.append((RCfg.of(a, "rxebR", "RuleDB"), RCfg.of(b, "r", "RuleDB"), "eqpath+exhausted"))
     return res
 
 
@@ -152,7 +169,8 @@ def run(ctx: Ctx) -> None:
     ctx.rule = (
         "all ordered pairs of the quick start classes x packs x both finder variants (ParallelSpecFinder, "
         "EqPathParallelSpecFinder), both searchers fresh for every call; plus ordered pairs of the regular languages with <= 2 states "
-        "(R-domain: first-letter and last-letter decompositions, alternative rules, shared classes), both universes fully expanded first; non-trivial = distinct (first, second, finder) for "
+        "(R-domain: first-letter and last-letter decompositions, alternative rules, shared classes; restricted strategy variants) and of the "
+        "languages with 3 states that have equal counts up to size 6 (quick: every 12th pair), both universes fully expanded first; non-trivial = distinct (first, second, finder) for "
         "which a pair of specifications was returned and validated"
     )
     ctx.assumptions = ["C01/C02/C12 oracles on the returned pair", "sizes <= %d" % N]
